@@ -47,11 +47,11 @@ def random_docs(schema_name: str, n: int, rng: random.Random, size=1.0, max_dept
     return sch, js, out
 
 
-def shaped_test_docs():
+def shaped_test_docs(name="test"):
     """Hand-shaped documents of the bundled test schema: textblocks with several differently marked inline children
     next to a code block (which forbids marks), also nested.  (schema, exported js, [(tokens, document)])"""
     from . import proj, schemas
-    sch, js = schemas.build("test")
+    sch, js = schemas.build(name)
     em, strong = sch.marks["em"].create(), sch.marks["strong"].create()
     link = sch.marks["link"].create({"href": "u"})
     tx = lambda c, *ms: sch.text(c, list(ms))                                  # noqa: E731
